@@ -43,6 +43,7 @@ def run(ctx):
   tp = cov.time_paths(ctx.S)
   ctx.require(len(tp) >= 10, 'schema lists only %d time-bearing paths' % len(tp))
   fields_named(ctx, tp)      # location-independent rules first
+  identity_exit_only_for_one(ctx)
   uniform(ctx, 'shift_sequence_times', {'sequence': own.NS}, {}, tp, 'aug:Add', 'shift_seconds',
           extra_allowed={('subsequence_info',): ('call:ClearField',)})
   for flag in (False, True):
@@ -52,6 +53,43 @@ def run(ctx):
   adjust(ctx, tp)
   concat(ctx)
   repeat(ctx)
+
+
+def identity_exit_only_for_one(ctx, rule='STRETCH/unscaled-exit-only-for-factor-one'):
+  """Every normal exit of stretch_note_sequence has passed the scaling of total_time, except the exit taken when the factor is
+  exactly 1.  An exit without scaling that can also be taken for another reason (no notes, say) leaves the events and total_time
+  of such a sequence where they were."""
+  fi = ctx.func(SL + ':stretch_note_sequence')
+  fn = fi.node
+  cons = 'stretch_note_sequence: the only exit that skips the scaling is the one for stretch_factor == 1'
+
+  def scales_total(n):
+    return isinstance(n, (ast.Assign, ast.AugAssign)) and any(isinstance(t, ast.Attribute) and t.attr == 'total_time' for t in (n.targets if isinstance(n, ast.Assign) else [n.target]))
+  miss = U.exits_missing(fn, scales_total)
+  if not miss:
+    ctx.ob(rule, fi, fn, True, 'every normal exit has scaled total_time', construct=cons)
+  for ex in miss:
+    node = ex if ex is not fn else fn
+    if ex is fn:
+      why = 'cannot classify: stretch_note_sequence can fall off its end without having scaled total_time'
+      ctx.ob(rule, fi, fn, False, why, construct=cons, unknown=why)
+      continue
+    conds = U.path_conditions(fn, ex)
+
+    def is_one(t):
+      return isinstance(t, ast.Compare) and len(t.ops) == 1 and isinstance(t.ops[0], ast.Eq) and \
+          sorted([norm_text(t.left), norm_text(t.comparators[0])])[-1] == 'stretch_factor' and U.const_value(t.left if norm_text(t.comparators[0]) == 'stretch_factor' else t.comparators[0]) == 1
+    if any(pol and is_one(t) for t, pol in conds):
+      ctx.ob(rule, fi, ex, True, 'the exit without scaling is taken only when stretch_factor == 1', construct=cons)
+      continue
+    wider = [t for t, pol in conds if pol and isinstance(t, ast.BoolOp) and isinstance(t.op, ast.Or) and any(is_one(v) for v in t.values)]
+    if wider:
+      others = [norm_text(v) for v in wider[0].values if not is_one(v)]
+      ctx.ob(rule, fi, ex, False, 'stretch_note_sequence returns without scaling anything not only when stretch_factor == 1 but also when %s: the event times, tempos and total_time of '
+             'such a sequence are left unscaled for every factor' % ' or '.join(others), construct=cons, definite=True)
+    else:
+      why = 'cannot classify: the exit at line %d skips the scaling of total_time under %s' % (getattr(ex, 'lineno', 0), ' and '.join(('' if p else 'not ') + norm_text(t) for t, p in conds) or 'no condition')
+      ctx.ob(rule, fi, ex, False, why, construct=cons, unknown=why)
 
 
 def fields_named(ctx, tpaths):
